@@ -250,6 +250,22 @@ func runC09(c *Ctx) {
 		c.Check(len(w.G(fa).Find(calls("encoding/json.Encoder.Encode"))) == 1, r5, "TransactionLog.Add: one JSON record per call", fa.Decl.Pos(), "one Encode", "writer changed shape", nil)
 	}
 
+	r7 := c.Rule("R7", "recovery steps run in the order they compose: in onIdle the priority rollbacks (which re-apply the handles as they were logged before the flip, staged marks included) run before the expired transaction logs are replayed (which clears those marks and removes the log) - the other order leaves removed-node handles marked deleted for good", 2)
+	{
+		prio := calls("common.Transaction.processPriorityRollbackOnRestart", "common.Transaction.processScheduledPriorityRollback")
+		exp := calls("common.Transaction.processExpiredLogs")
+		c.Check(len(go_.Find(prio)) >= 1 && len(go_.Find(exp)) == 1, r7, "onIdle: priority rollback and expired-log steps present", fo.Decl.Pos(), fmt.Sprintf("%d priority rollback call(s), %d expired-log call(s)", len(go_.Find(prio)), len(go_.Find(exp))), "steps missing", nil)
+		r := go_.Reach(idsOf(go_.Find(exp)), nil, nil)
+		var offs []Offence
+		for _, x := range go_.Find(prio) {
+			if r.Seen[x.ID] {
+				offs = append(offs, Offence{x, r.Path(x.ID)})
+			}
+		}
+		c.Offences(go_, offs, r7, "onIdle: no priority rollback runs after the expired transaction logs were replayed", fo.Decl.Pos(), "priority rollbacks precede processExpiredLogs",
+			"a priority rollback can run after the expired-log replay in the same pass: the replay clears the staged deleted marks and removes the transaction log, then the priority rollback re-applies the staged handles and removes the priority log - nothing is left to clear the marks, and every later writer that has to remove one of those nodes fails phase 1")
+	}
+
 	r6 := c.Rule("R6", "the count delta the replay has to subtract survives the log encoding (shared with C06.R7)", 3)
 	replayDeltaRule(c, r6)
 
@@ -306,3 +322,11 @@ func entryPointsOf(w *World, target *Func) []*Func {
 }
 
 var _ = token.NoPos
+
+func idsOf(ns []*GNode) []int {
+	var out []int
+	for _, n := range ns {
+		out = append(out, n.ID)
+	}
+	return out
+}
